@@ -115,11 +115,16 @@ class Outcome(object):
 
 
 class LoopSpec(object):
-    def __init__(self, inv=(), variant=None, extra_havoc=(), assume=()):
+    def __init__(self, inv=(), variant=None, extra_havoc=(), assume=(),
+                 havoc_map=None):
         self.inv = list(inv)          # expression strings (named: (name, str))
         self.variant = variant
         self.extra_havoc = list(extra_havoc)
         self.assume = list(assume)
+        # relational proofs: values to use for the arbitrary iteration
+        # instead of fresh symbols (run 2 = image of run 1's symbols)
+        self.havoc_map = havoc_map or {}
+        self.log = dict(entry=None, head=None, ends=[], exits=[])
 
 
 class CalleeContract(object):
@@ -164,6 +169,7 @@ class Executor(object):
         self._fn_stack = []
         self.n_paths = 0
         self._solver = None
+        self.on_assign = None
 
     # ------------------------------------------------------------ utilities
     def oblige(self, name, state, goal, where='', kind='side', extra=None):
@@ -644,8 +650,11 @@ class Executor(object):
         inv_holds(st, 'entry', 'inv-entry')
         # (2) arbitrary iteration
         h = st.clone()
+        spec.log['entry'] = st.clone()
         for n in sorted(names | set(spec.extra_havoc)):
-            if n in h.env:
+            if n in spec.havoc_map:
+                h.env[n] = spec.havoc_map[n]
+            elif n in h.env:
                 h.env[n] = self.havoc_value(h.env[n], n)
             else:
                 h.env[n] = _Poison(n)
@@ -662,7 +671,9 @@ class Executor(object):
             elif sname in h.env:
                 h.env[sname] = self.havoc_value(h.env[sname], sname)
         if is_for:
-            iv = S.fresh(ivar, 'int')
+            iv = spec.havoc_map.get(ivar)
+            if iv is None:
+                iv = S.fresh(ivar, 'int')
             h.env[ivar] = iv
             h.pc.append(S.to_z3(S.cmp('>=', iv, rng.start)))
             h.pc.append(S.to_z3(S.cmp('<=', iv, S.maxval(rng.stop,
@@ -677,6 +688,7 @@ class Executor(object):
             v = S.to_bool(self.eval_spec(expr, h))
             if is_sym(v):
                 h.pc.append(v)
+        spec.log['head'] = h.clone()
         out = []
         # guard
         body_states = []
@@ -722,6 +734,7 @@ class Executor(object):
                 self.oblige('%s.variant.nonneg' % tag, sb,
                             S.cmp('>=', v0, 0), self.where(node), 'variant')
             for s3, sig in self.exec_block(node.body, sb):
+                spec.log['ends'].append((s3.clone(), sig))
                 if sig is None or sig[0] == 'continue':
                     if is_for:
                         s3.env[ivar] = S.add(s3.env[ivar + '__cur']
@@ -738,11 +751,16 @@ class Executor(object):
                     out.append((s3, sig))
         for se in exit_states:
             if self.feasible(se.pc):
+                spec.log['exits'].append(se.clone())
                 out.extend(self.exec_block(node.orelse, se))
         return out
 
     # ------------------------------------------------------------ assignment
     def assign(self, target, v, st):
+        if self.on_assign is not None and is_sym(v) and not \
+                isinstance(target, (ast.Tuple, ast.List)):
+            v = self.on_assign(self, st, _dotted(target) if isinstance(
+                target, (ast.Name, ast.Attribute)) else 'subscript', v)
         if isinstance(target, ast.Name):
             st.env[target.id] = v
         elif isinstance(target, (ast.Tuple, ast.List)):
@@ -1091,7 +1109,17 @@ class Executor(object):
             self.nonzero(b, st, node)
             return S.mod(a, b)
         if isinstance(op, ast.Pow):
-            return S.power(a, b)
+            r = S.power(a, b)
+            if is_sym(r) and z3.is_app(r) and r.decl().name() == 'pow' \
+                    and self.definedness != 'ignore' and is_sym(a):
+                # real power with a non-integer exponent: base > 0
+                g = S.to_real(a) > 0
+                if self.definedness == 'obligation':
+                    self.oblige('defined.pow@%s' % node.lineno, st, g,
+                                self.where(node), 'defined')
+                st.pc.append(z3.Implies(z3.And(*self._guard), g)
+                             if self._guard else g)
+            return r
         if isinstance(op, ast.BitAnd):
             return S.b_and(a, b)
         if isinstance(op, ast.BitOr):
@@ -1266,6 +1294,8 @@ class Executor(object):
 
     def call(self, f, args, kwargs, st, node):
         if isinstance(f, _Builtin):
+            if f.name in self.externals:
+                return self.externals[f.name](self, st, args, kwargs, node)
             return self.call_builtin(f.name, args, kwargs, st, node)
         if isinstance(f, (_ListMethod, _DictMethod, _StrMethod)):
             return f.call(self, args, kwargs, st, node)
@@ -1343,16 +1373,65 @@ class Executor(object):
         if len(res) == 1:
             st.pc[:] = res[0][0].pc
             st.trace[:] = res[0][0].trace
+            # the callee may have forked and merged internally: its final
+            # argument objects are then copies -- write them back in place
+            fin = [o for o in outs if o.kind == 'return'][0].state.env
+            for p_, v in sub_args.items():
+                f = fin.get(p_)
+                if f is v or f is None:
+                    continue
+                if isinstance(v, list) and isinstance(f, list):
+                    v[:] = f
+                elif isinstance(v, SymObject) and isinstance(f, SymObject):
+                    v.attrs = f.attrs
+                elif isinstance(v, SymArray) and isinstance(f, SymArray):
+                    v.arr, v.length = f.arr, f.length
+                elif isinstance(v, dict) and isinstance(f, dict):
+                    v.clear()
+                    v.update(f)
             return res[0][1]
         if not res:
             raise _DeadPath()
-        # several outcomes: merge into a single ite value (numeric results,
-        # arguments mutated in place are shared objects and were forked with
-        # the callee's state clones -> only sound to merge when callee did not
-        # fork the heap).  We therefore require callee merge mode.
-        raise VCError('inlined callee %s forks (%d outcomes); run with '
-                      'merge=True or give it a contract' % (fn.name,
-                                                            len(res)))
+        # several outcomes: fold them into one with if-then-else on the
+        # callee's own branch conditions (value and list arguments)
+        n0 = len(st.pc)
+        outs_ok = [o for o in outs if o.kind == 'return']
+        if any(o.state.trace != outs_ok[0].state.trace for o in outs_ok):
+            raise VCError('inlined callee %s forks with different traces'
+                          % fn.name)
+        conds = []
+        for o in outs_ok:
+            extra = o.state.pc[n0:]
+            conds.append(z3.And(*extra) if len(extra) > 1 else
+                         (extra[0] if extra else z3.BoolVal(True)))
+
+        def fold(vals):
+            r = vals[-1]
+            for c, v in zip(reversed(conds[:-1]), reversed(vals[:-1])):
+                r = S.ite(c, v, r)
+            return r
+        vals = [o.value for o in outs_ok]
+        if all(v is None for v in vals):
+            ret = None
+        elif all(S.is_num(v) or isinstance(v, bool) for v in vals):
+            ret = fold(vals)
+        else:
+            raise VCError('inlined callee %s forks with non-numeric results'
+                          % fn.name)
+        for p_, v in sub_args.items():
+            if isinstance(v, list):
+                finals = [o.state.env.get(p_) for o in outs_ok]
+                if not all(isinstance(f, list) and len(f) == len(v)
+                           for f in finals):
+                    raise VCError('inlined callee %s rebinds list arg' %
+                                  fn.name)
+                for i in range(len(v)):
+                    v[i] = fold([f[i] for f in finals])
+            elif isinstance(v, (SymObject, SymArray, dict)):
+                raise VCError('inlined callee %s forks with object args' %
+                              fn.name)
+        st.trace[:] = outs_ok[0].state.trace
+        return ret
 
     def call_builtin(self, name, args, kwargs, st, node):
         if name == 'abs' or name == 'fabs':
